@@ -54,7 +54,7 @@ static void run_history_f(const std::vector<std::string>& lines, int fd) {
 }
 
 int main(int argc, char** argv) {
-  int limit = argc > 1 ? atoi(argv[1]) : 60;
+  int limit = argc > 1 ? atoi(argv[1]) : 60; g_limit = limit;
   MODE = argc > 2 ? atoi(argv[2]) : 0;
   vj::for_each_history(std::cin, limit, std::cout, run_history_f);
   return 0;
